@@ -2,7 +2,7 @@
    decode_encode_msg in proofs/ProtoMsgProofs.v) + the AST-level lookup plookup; the reference
    implementation's own report of the message is cross-checked against the model in 701. *)
 From Coq Require Import ZArith List Bool.
-From DG Require Import CaseFormat ProtoWireRef ProtoMsg ProtoCase ProtoGeneric ProtoGenericAlg.
+From DG Require Import CaseFormat ProtoWireRef ProtoMsg ProtoCase ProtoGeneric ProtoGenericAlg ProtoGenericDom.
 Import ListNotations.
 Local Open Scope Z_scope.
 
@@ -216,8 +216,15 @@ Definition parent_node (sc : schema) (root : list Z) (m : pmsg) (bs : list Z) (p
   end.
 
 (* extra fields of a query of APIs 5, 6, 9: parent observation, requests, position *)
-Record qextra := mk_qextra { q_pst : Z; q_pty : Z; q_praw : list Z; q_psize : Z; q_reqs : list pstep; q_at : Z }.
-Definition no_extra : qextra := mk_qextra 9 0 [] 0 [] 0.
+Record qextra := mk_qextra { q_pst : Z; q_pty : Z; q_praw : list Z; q_psize : Z; q_reqs : list pstep; q_at : Z; q_len : Z }.
+Definition no_extra : qextra := mk_qextra 9 0 [] 0 [] 0 (-1).
+
+(* Len() of a LIST / MAP node of a loaded tree: the element count after a recursive load, 0 on a lazily loaded child *)
+Definition len_ok (recursive : bool) (r : lres) (ln : Z) : bool :=
+  match r with
+  | LFound (LRepeated _) _ _ v | LFound (LMap _) _ _ v => ln =? (if recursive then size_of v else 0)
+  | _ => true
+  end.
 
 (* recursive loads of the root for every repair configuration (computed once per case line, API 7) *)
 Definition root_loads (sc : schema) (root : list Z) (bs : list Z) : list (list Z * tres) :=
@@ -280,7 +287,7 @@ Definition judge_702 (sc : schema) (root : list Z) (m : pmsg) (bs : list Z) (api
     end
   else if api =? 7 then
     (* PathNode.Load(recurse=true) on the root, then a walk along the path *)
-    if obs_ok api p r st ty raw then VOk
+    if obs_ok api p r st ty raw then (if len_ok true r (q_len x) then VOk else VBad 7 [FZ (q_len x)])
     else if pval_any is_oos_map rootv then VDrift 1
     else known_or_bad
            (option_map fst
@@ -291,7 +298,7 @@ Definition judge_702 (sc : schema) (root : list Z) (m : pmsg) (bs : list Z) (api
                                | TUnmod => false
                                end) loads)) bad
   else
-    if obs_ok api p r st ty raw then VOk
+    if obs_ok api p r st ty raw then (if len_ok false r (q_len x) then VOk else VBad 7 [FZ (q_len x)])
     else if path_out_of_subset sc LSingular (TMsg root) rootv p then VDrift 1
     else bad.
 
@@ -302,14 +309,14 @@ Definition parse_extra (fs : list field) : option (qextra * list field) :=
   | FZ pst :: FZ pty :: FB praw :: FZ psize :: FZ nreq :: r =>
     if negb (count_ok nreq) then None else
     match parse_steps (Z.to_nat nreq) r with
-    | Some (reqs, FZ at_ :: r') => Some (mk_qextra pst pty praw psize reqs at_, r')
+    | Some (reqs, FZ at_ :: r') => Some (mk_qextra pst pty praw psize reqs at_ (-1), r')
     | _ => None
     end
   | _ => None
   end.
 
 (* returns the combined verdict; bad queries are collected (index + expected observation) *)
-Fixpoint run_queries (judge : list pstep -> Z -> Z -> list Z -> qextra -> verdict) (extra : bool)
+Fixpoint run_queries (judge : list pstep -> Z -> Z -> list Z -> qextra -> verdict) (extra haslen : bool)
          (n : nat) (idx : Z) (fs : list field) (acc : verdict) (bad : list field) : verdict :=
   match n with
   | O => match fs with
@@ -319,11 +326,13 @@ Fixpoint run_queries (judge : list pstep -> Z -> Z -> list Z -> qextra -> verdic
   | S n' =>
     match parse_path fs with
     | Some (p, FZ st :: FZ ty :: FB raw :: r) =>
-      match (if extra then parse_extra r else Some (no_extra, r)) with
+      match (if extra then parse_extra r
+             else if haslen then match r with FZ ln :: r' => Some (mk_qextra 9 0 [] 0 [] 0 ln, r') | _ => None end
+             else Some (no_extra, r)) with
       | Some (x, r') =>
         match judge p st ty raw x with
-        | VBad c d => run_queries judge extra n' (idx + 1) r' acc (bad ++ FZ idx :: FZ c :: d)
-        | v => run_queries judge extra n' (idx + 1) r' (vworse acc v) bad
+        | VBad c d => run_queries judge extra haslen n' (idx + 1) r' acc (bad ++ FZ idx :: FZ c :: d)
+        | v => run_queries judge extra haslen n' (idx + 1) r' (vworse acc v) bad
         end
       | None => VBad 99 [FZ idx]
       end
@@ -338,7 +347,7 @@ Definition check_702 (fs : list field) : verdict :=
     if negb (count_ok nq) then VBad 99 [] else
     match decode_top sc root bs with
     | None => VSkip
-    | Some m => run_queries (judge_702 sc root m bs api (if api =? 7 then root_loads sc root bs else [])) (has_extra api) (Z.to_nat nq) 0 r VOk []
+    | Some m => run_queries (judge_702 sc root m bs api (if api =? 7 then root_loads sc root bs else [])) (has_extra api) ((api =? 7) || (api =? 8)) (Z.to_nat nq) 0 r VOk []
     end
   | _ => VBad 99 []
   end.
